@@ -20,6 +20,13 @@ class KernelError(Exception):
     pass
 
 
+def declare_partition(ctx, sort, parts):
+    """parts: [(map name, part sort), ...]  -- a bijection  sort ~ disjoint union of the part sorts"""
+    ctx.partitions[sort] = list(parts)
+    for n, (name, ps) in enumerate(parts):
+        ctx.part_of[name] = (sort, n)
+
+
 class IV:
     """index variable of a sort"""
     __slots__ = ("id", "sort")
@@ -292,6 +299,8 @@ class Ctx:
         self.diag = {}       # atom name -> True if declared diagonal in its last two slots (stored as vector atom)
         self.max_perm = 40320
         self.idempotent = set()
+        self.partitions = {}     # sort -> [(map name, part sort), ...]: the maps are injections with disjoint ranges covering sort
+        self.part_of = {}        # map name -> (sort, position)
 
     def intern(self, form):
         k = self.keys.get(form)
@@ -770,6 +779,13 @@ def simplify_mono(f, b, ctx):
                 changed = True
         if changed:
             continue
+        if ctx.partitions:
+            r = _partition_rules(f, b, ctx)
+            if r is not None:
+                if r == "changed":
+                    changed = True
+                    continue
+                return r
         # inverse pairs
         if ctx.inv_pairs:
             hit = _find_inv(f, b, ctx)
@@ -845,6 +861,94 @@ def simplify_mono(f, b, ctx):
             f2.append(("N", v.sort, 1))
             return simplify_mono(f2, b, ctx)
     return f2, b, coef
+
+
+def _partition_rules(f, b, ctx):
+    """rules for a sort D partitioned by injections s_0, s_1, ...:
+       delta(s_p(i), s_p(k)) = delta(i,k);  delta(s_p(i), s_q(j)) = 0 (p != q);
+       |D| = sum of part sizes;  sum_{d:D} g(d) = sum_p sum_{i} g(s_p(i))  (only if no inverse pair contracts over d)"""
+    for n, x in enumerate(f):
+        if x[0] == "D" and is_app(x[1]) and is_app(x[2]) and x[1][1] in ctx.part_of and x[2][1] in ctx.part_of:
+            pa, pb = ctx.part_of[x[1][1]], ctx.part_of[x[2][1]]
+            if pa[0] == pb[0]:
+                if pa[1] != pb[1]:
+                    return {}
+                f[n] = ("D", x[1][2][0], x[2][2][0])
+                return "changed"
+    for n, x in enumerate(f):
+        if x[0] == "N" and x[1] in ctx.partitions:
+            parts = ctx.partitions[x[1]]
+            rest = [y for k2, y in enumerate(f) if k2 != n]
+            if x[2] > 1:
+                rest.append(("N", x[1], x[2] - 1))
+            elif x[2] < 1:
+                continue
+            out = {}
+            for (nm, ps) in parts:
+                key = (tuple(rest) + (("N", ps, 1),), frozenset(b))
+                out[key] = out.get(key, 0) + Fraction(1)
+            return out
+    for v in list(b):
+        if v.sort in ctx.partitions:
+            # do not split while an inverse-pair contraction over v is still possible
+            if ctx.inv_pairs and _pair_contracts_over(f, b, ctx, v):
+                continue
+            out = {}
+            for (nm, ps) in ctx.partitions[v.sort]:
+                u = IV(ps)
+                m = {v: ("app", nm, (u,))}
+                key = (tuple(_fsubst(y, m) for y in f), frozenset((set(b) - {v}) | {u}))
+                out[key] = out.get(key, 0) + Fraction(1)
+            return out
+    # partial contraction over the first part of a partition:  P[x, s0(v)] Q[s0(v), y] = delta(x,y) - sum_{q>0} P[x,s_q(u)] Q[s_q(u),y]
+    for n1, x in enumerate(f):
+        if x[0] != "A" or x[3] != 1:
+            continue
+        Q = ctx.inv_pairs.get(x[1])
+        if Q is None:
+            continue
+        for n2, y in enumerate(f):
+            if n2 == n1 or y[0] != "A" or y[1] != Q or y[3] != 1 or len(x[2]) != len(y[2]):
+                continue
+            if not all(_same_index(p, q) for p, q in zip(x[2][:-2], y[2][:-2])):
+                continue
+            xs, ys = x[2][-2:], y[2][-2:]
+            xsl = (0, 1) if _is_sym(ctx, x[1], len(x[2])) else (1,)
+            ysl = (0, 1) if _is_sym(ctx, y[1], len(y[2])) else (0,)
+            for a in xsl:
+                for c in ysl:
+                    t1, t2 = xs[a], ys[c]
+                    if not (is_app(t1) and is_app(t2) and t1[1] == t2[1] and t1[1] in ctx.part_of):
+                        continue
+                    srt, pos = ctx.part_of[t1[1]]
+                    if pos != 0 or len(t1[2]) != 1:
+                        continue
+                    v1, v2 = t1[2][0], t2[2][0]
+                    if not (isinstance(v1, IV) and v1 is v2 and v1 in b and _occ(f, v1) == 2):
+                        continue
+                    rest = [z for k2, z in enumerate(f) if k2 not in (n1, n2)]
+                    nb = set(b) - {v1}
+                    out = {}
+                    k1 = (tuple(rest) + (("D", xs[1 - a], ys[1 - c]),), frozenset(nb))
+                    out[k1] = out.get(k1, 0) + Fraction(1)
+                    for (nm, ps) in ctx.partitions[srt][1:]:
+                        u = IV(ps)
+                        xi = list(x[2]); xi[len(xi) - 2 + a] = ("app", nm, (u,))
+                        yi = list(y[2]); yi[len(yi) - 2 + c] = ("app", nm, (u,))
+                        k2_ = (tuple(rest) + (("A", x[1], tuple(xi), 1), ("A", y[1], tuple(yi), 1)), frozenset(nb | {u}))
+                        out[k2_] = out.get(k2_, 0) - Fraction(1)
+                    return out
+    return None
+
+
+def _pair_contracts_over(f, b, ctx, v):
+    if _occ(f, v) != 2:
+        return False
+    hits = [x for x in f if x[0] == "A" and x[3] == 1 and any(i is v for i in x[2][-2:])]
+    if len(hits) != 2:
+        return False
+    x, y = hits
+    return ctx.inv_pairs.get(x[1]) == y[1] and all(_same_index(p, q) for p, q in zip(x[2][:-2], y[2][:-2]))
 
 
 def _merge_key(k, ctx=None):
